@@ -34,24 +34,24 @@ type seqFailure struct {
 }
 
 func run(t *T) {
-	type cfg struct{ nf, nb, l int }
+	type cfg struct{ nf, nb, l, bk int }
 	var cfgs []cfg
 	switch t.Tier {
 	case "thorough":
-		cfgs = []cfg{{2, 2, 6}, {3, 3, 5}, {1, 3, 6}, {3, 1, 5}}
+		cfgs = []cfg{{2, 2, 6, bkPlain}, {3, 3, 5, bkPlain}, {1, 3, 6, bkPlain}, {3, 1, 5, bkPlain}, {1, 2, 6, bkReturn}, {1, 2, 6, bkNOC}, {1, 3, 5, bkMixed}, {2, 2, 5, bkReturn}}
 	case "search":
-		cfgs = []cfg{{2, 2, 6}, {3, 3, 4}}
+		cfgs = []cfg{{2, 2, 6, bkPlain}, {3, 3, 4, bkPlain}, {1, 2, 6, bkReturn}, {1, 2, 6, bkNOC}, {1, 3, 5, bkMixed}}
 	default:
-		cfgs = []cfg{{2, 2, 5}, {3, 3, 4}, {1, 1, 6}}
+		cfgs = []cfg{{2, 2, 5, bkPlain}, {3, 3, 4, bkPlain}, {1, 1, 6, bkPlain}, {1, 2, 5, bkReturn}, {1, 2, 5, bkNOC}, {1, 3, 4, bkMixed}}
 	}
 	for _, c := range cfgs {
-		exhaustive(t, c.nf, c.nb, c.l)
+		exhaustive(t, c.nf, c.nb, c.l, c.bk)
 	}
 	concurrent(t)
 }
 
 // exhaustive enumerates all sequences of exactly l calls.
-func exhaustive(t *T, nf, nb, l int) {
+func exhaustive(t *T, nf, nb, l, bk int) {
 	alpha := alphabet(nf, nb)
 	n := len(alpha)
 	type task struct {
@@ -89,7 +89,7 @@ func exhaustive(t *T, nf, nb, l int) {
 						seq[k].tok = k
 					}
 					tk.count++
-					if f := runSequence(seq); f != nil && len(tk.failures) < 3 {
+					if f := runSequence(seq, bk); f != nil && len(tk.failures) < 3 {
 						tk.failures = append(tk.failures, *f)
 					}
 					// next index vector (positions 2..l-1)
@@ -114,6 +114,9 @@ func exhaustive(t *T, nf, nb, l int) {
 		total += tk.count
 	}
 	class := fmt.Sprintf("sequential-exhaustive files=%d batches=%d calls=%d len=%d", nf, nb, n, l)
+	if bk != bkPlain {
+		class += " batch-objects=" + batchKindName[bk]
+	}
 	for _, tk := range tasks {
 		key := fmt.Sprintf("%s: all %d sequences starting %s; %s", class, tk.count, alpha[tk.a], alpha[tk.b])
 		t.Case(key, class, true)
@@ -125,14 +128,14 @@ func exhaustive(t *T, nf, nb, l int) {
 }
 
 // runSequence runs one sequence on a fresh repository against the model.
-func runSequence(seq []op) *seqFailure {
-	if f := runSequenceVia(seq, false); f != nil {
+func runSequence(seq []op, bk int) *seqFailure {
+	if f := runSequenceVia(seq, false, bk); f != nil {
 		return f
 	}
-	return runSequenceVia(seq, true)
+	return runSequenceVia(seq, true, bk)
 }
 
-func runSequenceVia(seq []op, service bool) *seqFailure {
+func runSequenceVia(seq []op, service bool, bk int) *seqFailure {
 	repo := server.NewRepositoryInMemory(0, nil)
 	ob := &objects{files: make([]*fileT, len(seq)), batches: make([]batchT, len(seq)), keepLists: true}
 	via := ""
@@ -146,7 +149,7 @@ func runSequenceVia(seq []op, service bool) *seqFailure {
 		case kStoreFile:
 			ob.files[i] = newFileObj(o.f)
 		case kStoreBatch:
-			ob.batches[i] = newBatchObj(o.b)
+			ob.batches[i] = newBatchObj(o.b, bk)
 		}
 		r := exec(repo, o, ob)
 		why, ns := step(s, o, r)
@@ -188,10 +191,14 @@ type program struct {
 	pre     []op   // executed sequentially before the clients start
 	clients [][]op // one slice per goroutine
 	nobj    int
+	bk      int // what the batch objects hold (bkPlain ...)
 }
 
 func (p *program) String() string {
 	var sb strings.Builder
+	if p.bk != bkPlain {
+		sb.WriteString("batch-objects=" + batchKindName[p.bk] + " ")
+	}
 	sb.WriteString("pre:")
 	for _, o := range p.pre {
 		sb.WriteString(" " + o.String())
@@ -273,6 +280,9 @@ func genProgram(r *gen.Rand) *program {
 		p.clients = append(p.clients, ops)
 	}
 	p.nobj = tok
+	if r.Chance(1, 3) {
+		p.bk = 1 + r.Intn(nBatchKinds-1)
+	}
 	return p
 }
 
@@ -293,7 +303,7 @@ func runProgram(p *program, lockstep bool) ([]histOp, mstate, *seqFailure) {
 		case kStoreFile:
 			ob.files[o.tok] = newFileObj(o.f)
 		case kStoreBatch:
-			ob.batches[o.tok] = newBatchObj(o.b)
+			ob.batches[o.tok] = newBatchObj(o.b, p.bk)
 		}
 	}
 	for _, o := range p.pre {
